@@ -60,4 +60,31 @@ v("c01-n-commit-via-local", "C01", "none", [(CMD, "\treturn c.batch.Commit(pebbl
 v("c01-n-commit-err-var", "C01", "none", [(FSM, "\tif err := ctx.Commit(); err != nil {\n\t\treturn nil, err\n\t}", "\terr := ctx.Commit()\n\tif err != nil {\n\t\treturn nil, err\n\t}")])
 v("c01-n-range-loop-update", "C01", "none", [(FSM, "\tfor i := 0; i < len(updates); i++ {\n\t\tcmd, err := parseCommand(ctx, updates[i])", "\tfor i := range updates {\n\t\tcmd, err := parseCommand(ctx, updates[i])")])
 
+# ---------------- C02 ----------------
+TBL = "storage/table/table.go"; KV = "regattaserver/kv.go"; EXT = "regattapb/extensions.go"
+v("c02-swap-args-at-callsite", "C02", "C02.a", [(TXN, "handleTxn(ctx, c.Txn.Compare, c.Txn.Success, c.Txn.Failure)", "handleTxn(ctx, c.Txn.Compare, c.Txn.Failure, c.Txn.Success)")])
+v("c02-swap-branches", "C02", "C02.a", [(TXN, "res, err := handleTxnOps(ctx, success)\n\t\treturn true, res, err", "res, err := handleTxnOps(ctx, fail)\n\t\treturn true, res, err"), (TXN, "res, err := handleTxnOps(ctx, fail)\n\treturn false, res, err", "res, err := handleTxnOps(ctx, success)\n\treturn false, res, err")])
+v("c02-flag-always-true", "C02", "C02.a", [(TXN, "res, err := handleTxnOps(ctx, fail)\n\treturn false, res, err", "res, err := handleTxnOps(ctx, fail)\n\treturn true, res, err")])
+v("c02-handler-result-inverted", "C02", "C02.a", [(TXN, "\tif !succ {\n\t\tresult = ResultFailure", "\tif succ {\n\t\tresult = ResultFailure")])
+v("c02-n-table-succeeded-ne", "C02", "none", [(TBL, "fsm.UpdateResult(res.Value) == fsm.ResultSuccess", "fsm.UpdateResult(res.Value) != fsm.ResultFailure")], "equivalent while there are two result codes")
+v("c02-table-succeeded-inverted", "C02", "C02.a", [(TBL, "fsm.UpdateResult(res.Value) == fsm.ResultSuccess", "fsm.UpdateResult(res.Value) == fsm.ResultFailure")])
+v("c02-lookup-swapped-lists", "C02", "C02.a", [(FSM, "\t\tif ok {\n\t\t\tfor _, op := range req.Success {", "\t\tif !ok {\n\t\t\tfor _, op := range req.Success {")])
+v("c02-lookup-succeeded-const", "C02", "C02.a", [(FSM, "resp := &regattapb.TxnResponse{Succeeded: ok}", "resp := &regattapb.TxnResponse{Succeeded: true}")])
+v("c02-compare-after-ops", "C02", "C02.b", [(TXN, "\tok, err := txnCompare(ctx.batch, compare)\n\tif err != nil {\n\t\treturn false, nil, err\n\t}\n\tif ok {", "\tpre, err := handleTxnOps(ctx, nil)\n\t_ = pre\n\tok, err := txnCompare(ctx.batch, compare)\n\tif err != nil {\n\t\treturn false, nil, err\n\t}\n\tif ok {")])
+v("c02-no-empty-range-false", "C02", "C02.c", [(TXN, "\t\t\t\tif !iter.First() {\n\t\t\t\t\treturn false, nil\n\t\t\t\t}\n", "")])
+v("c02-compare-operands-swapped", "C02", "C02.c", [(TXN, "cmpValue = bytes.Compare(value, cmp.GetValue()) == 1", "cmpValue = bytes.Compare(cmp.GetValue(), value) == 1")])
+v("c02-less-uses-le", "C02", "C02.c", [(TXN, "cmpValue = bytes.Compare(value, cmp.GetValue()) == -1", "cmpValue = bytes.Compare(value, cmp.GetValue()) <= 0")])
+v("c02-notfound-true", "C02", "C02.c", [(TXN, "\t\t\t\t\tif errors.Is(err, pebble.ErrNotFound) {\n\t\t\t\t\t\treturn false, nil", "\t\t\t\t\tif errors.Is(err, pebble.ErrNotFound) {\n\t\t\t\t\t\treturn len(cmp.GetValue()) == 0, nil")])
+v("c02-range-fail-breaks", "C02", "C02.c", [(TXN, "\t\t\t\t\tif !txnCompareSingle(cmp, iter.Value()) {\n\t\t\t\t\t\treturn false, nil\n\t\t\t\t\t}", "\t\t\t\t\tif !txnCompareSingle(cmp, iter.Value()) {\n\t\t\t\t\t\tbreak\n\t\t\t\t\t}")])
+v("c02-conjunction-or", "C02", "C02.c", [(TXN, "\t\tif !res {\n\t\t\treturn false, nil\n\t\t}\n\t}\n\treturn true, nil", "\t\tif res {\n\t\t\treturn true, nil\n\t\t}\n\t}\n\treturn len(compare) == 0, nil")])
+v("c02-put-arm-no-append", "C02", "C02.d", [(TXN, "\t\t\tresponse, err := handlePut(ctx, o.RequestPut)\n\t\t\tif err != nil {\n\t\t\t\treturn nil, err\n\t\t\t}\n\t\t\tresults = append(results, wrapResponseOp(response))", "\t\t\tresponse, err := handlePut(ctx, o.RequestPut)\n\t\t\tif err != nil {\n\t\t\t\treturn nil, err\n\t\t\t}\n\t\t\tif response.PrevKv != nil {\n\t\t\t\tresults = append(results, wrapResponseOp(response))\n\t\t\t}")])
+v("c02-lookup-ops-read-live-db", "C02", "C02.e", [(FSM, "\t\t\trr, err := lookup(snapshot, op)", "\t\t\trr, err := lookup(p.pebble.Load(), op)")])
+v("c02-readonly-ignores-failure", "C02", "C02.f", [(EXT, "\tfor _, op := range req.Failure {\n\t\tif _, ok := op.Request.(*RequestOp_RequestRange); !ok {\n\t\t\treturn false\n\t\t}\n\t}\n", "")])
+v("c02-readonly-put-counts", "C02", "C02.f", [(EXT, "\tfor _, op := range req.Success {\n\t\tif _, ok := op.Request.(*RequestOp_RequestRange); !ok {\n\t\t\treturn false\n\t\t}", "\tfor _, op := range req.Success {\n\t\tif _, ok := op.Request.(*RequestOp_RequestRange); !ok {\n\t\t\tcontinue\n\t\t}")])
+v("c02-table-readpath-unguarded", "C02", "C02.f", [(TBL, "\tif req.IsReadonly() {\n\t\treturn readTable[*regattapb.TxnResponse](t, ctx, true, req)", "\tif req.IsReadonly() || len(req.Success) == 0 {\n\t\treturn readTable[*regattapb.TxnResponse](t, ctx, true, req)")])
+v("c02-n-flip-if-else", "C02", "none", [(TXN, "\tif ok {\n\t\tres, err := handleTxnOps(ctx, success)\n\t\treturn true, res, err\n\t}\n\tres, err := handleTxnOps(ctx, fail)\n\treturn false, res, err", "\tif !ok {\n\t\tres, err := handleTxnOps(ctx, fail)\n\t\treturn false, res, err\n\t}\n\tres, err := handleTxnOps(ctx, success)\n\treturn true, res, err")])
+v("c02-n-return-ok", "C02", "none", [(TXN, "\t\tres, err := handleTxnOps(ctx, success)\n\t\treturn true, res, err", "\t\tres, err := handleTxnOps(ctx, success)\n\t\treturn ok, res, err")])
+v("c02-n-greater-gt0", "C02", "none", [(TXN, "cmpValue = bytes.Compare(value, cmp.GetValue()) == 1", "cmpValue = bytes.Compare(value, cmp.GetValue()) > 0")])
+v("c02-n-less-swapped-consistently", "C02", "none", [(TXN, "cmpValue = bytes.Compare(value, cmp.GetValue()) == -1", "cmpValue = bytes.Compare(cmp.GetValue(), value) == 1")])
+
 json.dump(V, sys.stdout, indent=1)
